@@ -8,6 +8,9 @@
   pool tokens, k+1 valid but unfunded, 501 / 502 = the LOCKED collections of the two simple-lock
   contracts; an LP token is named by its pair's address.  A locked-token class is written
   `coll/orig/unlock` in results and as three arguments `coll orig unlock` in op lines.
+  Administration ops: `setTmpPeriod c n`, `clearTmp c` (v1 = returned size), `issueLp c a`,
+  `setLocalRoles c a`, `upgradePair c t1 t2`, `advanceBlock n`, `bareNext 0|1`; the state line shows
+  blk / tper / tmp (pair:creator:block in map order) / nolp / bare.
 -/
 import MxModel.Core.Router
 import MxModel.Driver.Proto
@@ -74,6 +77,13 @@ def parseOp : List String → Option Op
   | ["unlock", u, coll, orig, unl, x] => do
       pure (.unlock (← u.toNat?) ⟨← coll.toNat?, ← orig.toNat?, ← unl.toNat?⟩ (← x.toNat?))
   | ["advance", e] => do pure (.advance (← e.toNat?))
+  | ["setTmpPeriod", c, n] => do pure (.setTmpPeriod (← c.toNat?) (← n.toNat?))
+  | ["clearTmp", c] => do pure (.clearTmp (← c.toNat?))
+  | ["issueLp", c, a] => do pure (.issueLp (← c.toNat?) (← a.toNat?))
+  | ["setLocalRoles", c, a] => do pure (.setLocalRoles (← c.toNat?) (← a.toNat?))
+  | ["upgradePair", c, t1, t2] => do pure (.upgradePair (← c.toNat?) (← t1.toNat?) (← t2.toNat?))
+  | ["advanceBlock", n] => do pure (.advanceBlock (← n.toNat?))
+  | ["bareNext", b] => do pure (.bareNext (b = "1"))
   | _ => none
 
 def showStatus : Mx.Pair.Status → String
@@ -127,7 +137,10 @@ def showState (d : DSt) : String :=
   let s := d.s
   let reg := orDash (",".intercalate (s.pairMap.map fun e => s!"{e.1.1}-{e.1.2}-{e.2}"))
   s!"act={showBool s.active} cre={showBool s.creationEnabled} tpl={showBool s.templateSet} " ++
-  s!"ep={s.epoch} reg={reg} rb={joinNats ((toks d.ntok).map s.rbal)} " ++
+  s!"ep={s.epoch} blk={s.block} tper={s.tmpPeriod} " ++
+  s!"tmp={orDash (",".intercalate (s.tmpOwners.map fun e => s!"{e.1}:{e.2.1}:{e.2.2}"))} " ++
+  s!"nolp={orDash (joinNats s.noLp)} bare={showBool s.bareNext} " ++
+  s!"reg={reg} rb={joinNats ((toks d.ntok).map s.rbal)} " ++
   s!"rlk={orDash (joinNats (s.lkeys.map (s.lbal s.self)))} " ++
   s!"burn={joinNats ((toks d.ntok).map (burned s))} " ++
   s!"wl={orDash (joinNats s.commonToks)} cfg={showCfg s d.ntok} " ++
